@@ -25,9 +25,87 @@ func c14GenCfg(r *Rng) string {
 func (c14) Gen(rng *Rng, tier string, n int) []string {
 	var out []string
 	for i := 0; i < n; i++ {
-		out = append(out, c14GenHistory(rng.Fork()))
+		r := rng.Fork()
+		if i%4 == 3 {
+			out = append(out, c14GenNoncurrent(r))
+		} else {
+			out = append(out, c14GenHistory(r))
+		}
 	}
 	return out
+}
+
+// the lifecycle shape: versions written while unversioned/suspended and enabled, identical contents across
+// versions (shared parts), then transitions addressed by explicit version ids incl. "null", with If-Match
+func c14GenNoncurrent(r *Rng) string {
+	ops := []string{"h", c14GenCfg(r)}
+	k := strconv.Itoa(r.Intn(3))
+	cont := strconv.Itoa(r.Intn(2))
+	cls := func() string { return tokBytes(r.Pick(c14GenClasses)) }
+	put := func(c string) string {
+		if r.Chance(70) {
+			c = cont // identical content => same ETag, deduplicated part when routed to the same store
+		}
+		return "P:0:" + k + ":" + cls() + ":" + c + ":" + strconv.Itoa(r.Intn(3)) + ":" + strconv.Itoa(r.Intn(3))
+	}
+	nOrd := 0
+	ops = append(ops, put(cont)) // null version, ordinal 0
+	nOrd++
+	if r.Chance(30) {
+		ops = append(ops, "V:0:S", put("2")) // overwritten in place while suspended
+		nOrd++
+	}
+	ops = append(ops, "V:0:E")
+	for i := 0; i < 1+r.Intn(3); i++ {
+		switch r.Intn(6) {
+		case 0:
+			ops = append(ops, "D:0:"+k+":L") // delete marker
+		case 1:
+			ops = append(ops, "C:0:"+k+":X:0:"+k+":"+cls())
+		default:
+			ops = append(ops, put("3"))
+		}
+		nOrd++
+	}
+	if r.Chance(25) {
+		ops = append(ops, "V:0:S")
+		if r.Chance(50) {
+			ops = append(ops, put("2"))
+			nOrd++
+		}
+	}
+	if r.Chance(30) {
+		ops = append(ops, "S", c14GenCfg(r))
+	}
+	sel := func() string {
+		switch r.Intn(10) {
+		case 0, 1, 2, 3:
+			return "X"
+		case 4:
+			return "L"
+		case 5:
+			return "U"
+		}
+		return strconv.Itoa(r.Intn(nOrd + 1))
+	}
+	for i := 0; i < 2+r.Intn(4); i++ {
+		im := "N"
+		switch r.Intn(6) {
+		case 0:
+			im = "*"
+		case 1, 2:
+			im = "e" + strconv.Itoa(r.Intn(nOrd+1))
+		}
+		ops = append(ops, "T:0:"+k+":"+sel()+":"+cls()+":"+im)
+		if r.Chance(35) {
+			ops = append(ops, "R:0:"+k+":"+sel())
+		}
+		if r.Chance(15) {
+			ops = append(ops, "D:0:"+k+":"+sel())
+		}
+	}
+	ops = append(ops, "S")
+	return strings.Join(ops, " ")
 }
 
 func c14GenHistory(r *Rng) string {
@@ -36,22 +114,29 @@ func c14GenHistory(r *Rng) string {
 		ops = append(ops, c14GenCfg(r))
 	}
 	nPhases := 1 + r.Intn(3)
-	nVers := 0
+	nOrd := 0
 	nk := 1 + r.Intn(3)
 	nCont := 2 + r.Intn(3) // tiny content alphabet: identical contents => deduplicated, shared parts
 	focusB := -1
 	if r.Chance(35) {
 		focusB = r.Intn(2)
 	}
+	status := []string{"U", "E"}
 	pickB := func() int {
 		if focusB >= 0 && r.Chance(85) {
 			return focusB
 		}
 		return r.Intn(2)
 	}
-	pickV := func(b int) string {
-		if b == 1 && nVers > 0 && r.Chance(40) {
-			return strconv.Itoa(r.Intn(nVers + 1))
+	pickV := func() string {
+		x := r.Intn(100)
+		switch {
+		case nOrd > 0 && x < 35:
+			return strconv.Itoa(r.Intn(nOrd + 1))
+		case x < 45:
+			return "X"
+		case x < 48:
+			return "U"
 		}
 		return "L"
 	}
@@ -69,39 +154,50 @@ func c14GenHistory(r *Rng) string {
 		for i := 0; i < nOps; i++ {
 			b, k := pickB(), r.Intn(nk)
 			x := r.Intn(100)
-			if ph > 0 && i < 2 && r.Chance(60) {
+			if ph > 0 && i < 2 && r.Chance(60) && status[b] != "S" {
 				x = 30 // after a remap: append first, so that objects get parts in different stores
 			}
 			switch {
-			case x < 25 || (i == 0 && ph == 0):
+			case x < 23 || (i == 0 && ph == 0):
 				ops = append(ops, "P:"+strconv.Itoa(b)+":"+strconv.Itoa(k)+":"+cls()+":"+strconv.Itoa(r.Intn(nCont))+":"+strconv.Itoa(r.Intn(3))+":"+strconv.Itoa(r.Intn(3)))
-				nVers += b
-			case x < 35:
+				nOrd++
+			case x < 33:
+				if status[b] == "S" {
+					continue
+				}
 				ops = append(ops, "A:"+strconv.Itoa(b)+":"+strconv.Itoa(k)+":"+strconv.Itoa(r.Intn(nCont)))
-				nVers += b
-			case x < 50:
+				nOrd++
+			case x < 45:
 				db, dk := pickB(), r.Intn(nk)
-				ops = append(ops, "C:"+strconv.Itoa(b)+":"+strconv.Itoa(k)+":"+pickV(b)+":"+strconv.Itoa(db)+":"+strconv.Itoa(dk)+":"+cls())
-				nVers += db
-			case x < 82:
+				ops = append(ops, "C:"+strconv.Itoa(b)+":"+strconv.Itoa(k)+":"+pickV()+":"+strconv.Itoa(db)+":"+strconv.Itoa(dk)+":"+cls())
+				nOrd++
+			case x < 77:
 				c := r.Pick(c14GenClasses)
 				if r.Chance(6) {
 					c = r.Pick([]string{"BOGUS", "glacier", ""})
 				}
-				ops = append(ops, "T:"+strconv.Itoa(b)+":"+strconv.Itoa(k)+":"+pickV(b)+":"+tokBytes(c))
+				im := "N"
+				if r.Chance(20) {
+					im = "*"
+					if nOrd > 0 && r.Bool() {
+						im = "e" + strconv.Itoa(r.Intn(nOrd+1))
+					}
+				}
+				ops = append(ops, "T:"+strconv.Itoa(b)+":"+strconv.Itoa(k)+":"+pickV()+":"+tokBytes(c)+":"+im)
 				if r.Chance(40) {
 					ops = append(ops, "R:"+strconv.Itoa(b)+":"+strconv.Itoa(k)+":L")
 				}
-			case x < 90:
-				v := "L"
-				if b == 1 {
-					v = strconv.Itoa(r.Intn(nVers + 1))
-				}
-				ops = append(ops, "D:"+strconv.Itoa(b)+":"+strconv.Itoa(k)+":"+v)
+			case x < 86:
+				ops = append(ops, "D:"+strconv.Itoa(b)+":"+strconv.Itoa(k)+":"+pickV())
+				nOrd++
+			case x < 91:
+				st := r.Pick([]string{"E", "E", "S"})
+				ops = append(ops, "V:"+strconv.Itoa(b)+":"+st)
+				status[b] = st
 			case x < 95:
 				ops = append(ops, "N")
 			default:
-				ops = append(ops, "R:"+strconv.Itoa(b)+":"+strconv.Itoa(k)+":"+pickV(b))
+				ops = append(ops, "R:"+strconv.Itoa(b)+":"+strconv.Itoa(k)+":"+pickV())
 			}
 		}
 	}
